@@ -105,6 +105,44 @@ def interrupt_cases(tier):
                     yield (prog, cfg, k)
 
 
+# ---- a hook skips the rest of a partly executed feature / rule ------------------------------------------------
+def partskip_case(case):
+    """case = (prog, k, kind): the k-th hook invocation calls feature.skip() / rule.skip() (documented for partly
+    executed entities). No prediction: the verdict must agree with what the model shows afterwards - failing iff some
+    scenario ended failed / error-class (what already went wrong stays wrong; what was skipped cannot fail the run)"""
+    prog, k, kind = case
+    obs = harness.run_case(prog, {}, faults={k: kind}, hooks=True)
+    v = []
+    if obs["escaped"]:
+        v.append(({"subcheck": "part-skip", "clause": "exception-escapes-run", "exc": obs["escaped"]},
+                  "run() raised %s" % obs["escaped"]))
+        return {"v": v, "nt": None, "out": "escaped", "dg": obs["escaped"]}
+    scen = [st for path, st in obs["status"].items() if path in obs["steps"]]
+    bad = [st for st in scen if st in refrun.FAILING]
+    if bool(obs["verdict"]) != bool(bad):
+        v.append(({"subcheck": "part-skip", "clause": "false-green" if bad else "false-red", "skipped_by": kind},
+                  "%s.skip() from hook #%d: scenario statuses %s but run() reports %s"
+                  % ("feature" if kind == "skipf" else "rule", k, sorted(set(scen)), "failure" if obs["verdict"] else "success")))
+    return {"v": v, "nt": ("part-skip", digest(case)), "out": ("part-skip", kind, obs["verdict"], tuple(sorted(set(scen)))),
+            "dg": (obs["verdict"], sorted(obs["status"].items()))}
+
+
+def partskip_cases(tier):
+    quick = tier == "quick"
+    shapes = [s_ for s_ in P.shapes(tier) if 2 <= P.size(s_) <= (3 if quick else 5) and len(s_[3]) <= 2]
+    for shp in shapes:
+        for nd, pr in P.deviations((shp,), 1, outcomes=("fail", "undefined") if quick else ("fail", "error", "undefined", "pending")):
+            prog = (pr[0], P.SECOND_FEATURE)
+            hooks_ = refrun.predict(prog, {}, hooks=True).hooks
+            for k, (name, ref) in enumerate(hooks_):
+                if name in ("before_all", "after_all") or "tag" in name:
+                    continue
+                if quick and "step" in name:
+                    continue
+                for kind in ("skipf", "skipr"):
+                    yield (prog, k, kind)
+
+
 # ---- a hook excludes a scenario whose steps would fail ------------------------------------------------------
 def hookskip_case(case):
     """the before_scenario / scenario-level before_tag hook of ONE scenario calls scenario.skip(); that scenario's first
@@ -410,6 +448,8 @@ def run(ctx):
               name="combinations of --stop / --dry-run / --wip / continue_after_failed_step / --tags")
     ctx.sweep(interrupt_case, interrupt_cases(ctx.tier), chunk=32,
               name="KeyboardInterrupt inside every hook invocation (run aborted from a hook)")
+    ctx.sweep(partskip_case, partskip_cases(ctx.tier), chunk=48,
+              name="feature.skip() / rule.skip() from a hook of a partly executed feature: verdict agrees with the model")
     ctx.sweep(hookskip_case, hookskip_cases(ctx.tier), chunk=32,
               name="a scenario whose first step would fail is excluded by its own before hook (skip())")
     ctx.sweep(reuse_case, reuse_cases(ctx.tier), chunk=16,
